@@ -124,6 +124,12 @@ def _locate_droplets_in_mask_cartesian(mask: ScalarField) -> Emulsion:
     volumes = ndimage.sum(mask.data, labels, index=indices)
     volumes = np.asanyarray(volumes) * cell_volume
 
+    # keep track of the periodic image in which each of the original clusters is
+    # placed, so clusters that are merged multiple times are shifted consistently
+    labels_orig = labels.copy()
+    cluster_label = np.arange(num_labels + 1)  # current label of original clusters
+    cluster_offset = np.zeros((num_labels + 1, grid.num_axes))  # in units of periods
+
     # connect clusters linked viaperiodic boundary conditions
     for ax in np.flatnonzero(grid.periodic):  # look at all periodic axes
         # compile list of all boundary points connected along the current axis
@@ -146,7 +152,14 @@ def _locate_droplets_in_mask_cartesian(mask: ScalarField) -> Emulsion:
                 # weighted averages of the center of mass
                 v_l, v_h = volumes[i_l - 1], volumes[i_h - 1]
                 pos_l, pos_h = positions[i_l - 1], positions[i_h - 1]
-                pos_h[ax] -= grid.shape[ax]  # wrap around the upper point
+                # determine the number of periods by which the upper cluster needs to
+                # be shifted so the upper point ends up right below the lower point
+                shift = cluster_offset[labels_orig[l]] - cluster_offset[labels_orig[h]]
+                shift[ax] -= 1  # wrap around the upper point
+                members = cluster_label == i_h
+                cluster_offset[members] += shift
+                cluster_label[members] = i_l
+                pos_h = pos_h + shift * grid.shape
                 pos = (pos_l * v_l + pos_h * v_h) / (v_l + v_h)
                 # update both clusters with the new data
                 positions[i_h - 1] = positions[i_l - 1] = pos
